@@ -456,6 +456,25 @@ def run(R):
 
     # ------------------------------------------------------------------ ATM.1
     R.ob('C15.ATM.1', 'no commit separates dependent write steps without compensation (a failure part-way leaves nothing half-created)')
+    def rolls_back_itself(qq):
+        """every INSERT / UPDATE / DELETE statement of the keychain method qq runs under a handler for any exception that rolls the
+        transaction back and re-raises: when the method fails it leaves no uncommitted row behind"""
+        cy = ctx(R, qq)
+        writes = [s_ for s_ in statements(cy) if s_.kind in ('INSERT', 'UPDATE', 'DELETE')]
+        if not writes:
+            return False
+        for s_ in writes:
+            okw = False
+            for (h, l) in s_.node.succ:
+                if l == 'exc' and h.kind == 'handler':
+                    hn = P.handler_names(cy.f.mod, h.ast) if h.ast.type is not None else ['BaseException']
+                    if any(x in ('Exception', 'BaseException') for x in hn) \
+                            and any(isinstance(x, ast.Call) and callee_attr(x) == 'rollback' for x in ast.walk(h.ast)) \
+                            and any(isinstance(x, ast.Raise) and x.exc is None for x in h.ast.body):
+                        okw = True
+            if not okw:
+                return False
+        return True
     for meth in ('touch_identity', 'new_identity', 'new_key', 'import_cert'):
         q = f'{KM}.KeychainSqlite3.{meth}'
         cx = ctx(R, q)
@@ -488,7 +507,8 @@ def run(R):
                                     # the failed step may have left uncommitted rows: they must be rolled back before the handler commits
                                     hcalls = [x for x in ast.walk(h.ast) if isinstance(x, ast.Call) and isinstance(x.func, ast.Attribute)]
                                     names_ = [x.func.attr for x in sorted(hcalls, key=lambda x: (x.lineno, x.col_offset))]
-                                    if 'commit' in names_ and ('rollback' not in names_ or names_.index('rollback') > names_.index('commit')):
+                                    if 'commit' in names_ and ('rollback' not in names_ or names_.index('rollback') > names_.index('commit')) \
+                                            and not rolls_back_itself(qq):
                                         probs.append(('the clean-up after a failed step commits without rolling back first: rows half-written by the failed '
                                                       'step are committed under the deleted entry', h.ast))
                         if not comp:
@@ -517,6 +537,42 @@ def run(R):
             R.fail('C15.ATM.2', inst, gk.qual, c, f'the key file for `{kn}` is written whether or not a key of that name exists: new_key(..., key_id=X) for an existing '
                    'X replaces the private key of the existing key and only then fails on the UNIQUE constraint, leaving a key whose certificate no longer matches '
                    'what it signs with (repro notes/repro/e19.py)', site(gk, c))
+    # ------------------------------------------------------------------ ATM.3 a key whose creation fails leaves no private key behind
+    R.ob('C15.ATM.3', 'new_key: every step between storing the private key (tpm.generate_key) and the commit runs under a handler for any exception '
+                      'that rolls the transaction back, removes the private key again and re-raises (a leftover key file makes the repeat with the same key id fail for ever, '
+                      'since the store never replaces an existing private key)')
+    nk = ctx(R, f'{KM}.KeychainSqlite3.new_key')
+    gens = [(n, c) for (n, c) in calls_in_ctx(nk, attr='generate_key')]
+    R.need(len(gens) == 1, 'new_key: expected one tpm.generate_key call')
+    (gn, gc) = gens[0]
+    gdefs = [nm for (nm, v) in nk.cfg.defs_of(gn)]
+    commits_nk = [n for (n, c) in calls_in_ctx(nk, attr='commit')]
+    R.need(commits_nk, 'new_key: no commit')
+    inst = f'{nk.qual} :: steps after the private key is stored'
+    between = reach_from_succ(nk.cfg, gn, follow_exc=False)
+    # ... that can still reach a commit of this creation (what follows the commit is outside the creation)
+    steps = [n for n in nk.cfg.nodes if n.id in between and n.kind in ('stmt', 'test', 'for', 'with', 'return') and list(n.calls())
+             and (n in commits_nk or any(nk.cfg.path_exists(n, cm) for cm in commits_nk)) and not n.in_handlers]
+    probs = []
+    for n in steps:
+        hs = [h for (h, l) in n.succ if l == 'exc' and h.kind == 'handler']
+        good = False
+        for h in hs:
+            hn = P.handler_names(nk.f.mod, h.ast) if h.ast.type is not None else ['BaseException']
+            dels = [c for c in ast.walk(h.ast) if isinstance(c, ast.Call) and callee_attr(c) == 'delete_key' and c.args]
+            rooted = any(isinstance(c.args[0], ast.Name) and c.args[0].id in gdefs for c in dels)
+            reraises = any(isinstance(x, ast.Raise) and x.exc is None for x in h.ast.body)
+            rolls = any(isinstance(c, ast.Call) and callee_attr(c) == 'rollback' for c in ast.walk(h.ast))
+            if any(x in ('Exception', 'BaseException') for x in hn) and rooted and reraises and rolls:
+                good = True
+        if not good:
+            probs.append(n)
+    if probs:
+        R.fail('C15.ATM.3', inst, nk.qual, probs[0].ast, f'`{norm(probs[0].ast)[:70]}` (and {len(probs) - 1} more step(s)) can fail after the private key was stored with nothing '
+               'removing it: the key file stays without a key entry, and new_key(..., key_id=X) repeated after the failure raises "already exists" '
+               'every time (repro notes/repro/e24.py)', site(nk, probs[0].ast))
+    else:
+        R.ok('C15.ATM.3', inst, site(nk, gc), f'{len(steps)} step(s) under a compensating handler')
     # ------------------------------------------------------------------ SIB.2 TpmFile naming
     R.ob('C15.SIB.2', 'TpmFile derives the private-key file name from the same encoding of the key name in every method')
     TF = 'ndn.security.tpm.tpm_file.TpmFile'
